@@ -1,14 +1,434 @@
 package main
 
+import (
+	"go/token"
+	"go/types"
+	"strings"
+
+	"golang.org/x/tools/go/ssa"
+)
+
+const tokGEQ, tokLEQ = token.GEQ, token.LEQ
+
+// The abstract codec that stands in for encoding/json (DESIGN.md section 2.7 and Appendix B).
+//
+// A []byte produced by json.Marshal or by the harness intrinsic JSONDoc is a Rope with one opaque piece that
+// carries an abstract document (JDoc). Hand-written writers (LinkedHashMap.ToJSON) concatenate such pieces with
+// concrete punctuation; the rope is parsed token by token when it is consumed.
+
+const (
+	jcSyntax = iota // not JSON at all
+	jcEmpty         // empty input
+	jcNull
+	jcScalar // a number where an array/object is expected
+	jcArray
+	jcObject
+)
+
+func docRope(d *JDoc) *Rope { return &Rope{P: []Piece{{Opq: true, What: "json", Doc: d}}} }
+
+func jsonErr(msg string) Value {
+	// a non-nil error value: an interface holding an opaque pointer
+	return &Iface{T: types.Universe.Lookup("error").Type(), V: "json: " + msg}
+}
+
 func (e *Engine) jsonMarshal(v Value) Value {
-	unsupported("json.Marshal stub not built yet")
+	d, ok := e.toDoc(v)
+	if !ok {
+		return Tuple{Nil{}, jsonErr("unsupported value")}
+	}
+	return Tuple{docRope(d), Nil{}}
+}
+
+func (e *Engine) toDoc(v Value) (*JDoc, bool) {
+	v = e.fv(v)
+	var st types.Type
+	if i, ok := v.(*Iface); ok {
+		st = i.T
+		// a type with its own MarshalJSON is asked to marshal itself; the result must be one JSON value
+		var m *ssa.Function
+		if sel := e.prog.MethodSets.MethodSet(i.T).Lookup(nil, "MarshalJSON"); sel != nil {
+			m = e.prog.MethodValue(sel)
+		}
+		if m != nil && m.Blocks != nil {
+			res := e.call(m, []Value{i.V}).(Tuple)
+			if _, isNil := res[1].(Nil); !isNil {
+				return nil, false
+			}
+			d := e.parseRope(ropeOf(res[0]))
+			if d == nil {
+				return nil, false
+			}
+			return d, true
+		}
+		v = e.fv(i.V)
+	}
+	switch x := v.(type) {
+	case *Ptr:
+		return e.toDoc(e.load(x))
+	case Nil:
+		return &JDoc{Kind: "null"}, true
+	case *SliceV:
+		d := &JDoc{Kind: "array"}
+		for _, c := range sliceVals(x) {
+			d.Elems = append(d.Elems, e.fv(c))
+		}
+		return d, true
+	case *MapV:
+		d := &JDoc{Kind: "object"}
+		for i := range x.M.Keys {
+			d.Keys = append(d.Keys, x.M.Keys[i])
+			d.Elems = append(d.Elems, x.M.Vals[i])
+		}
+		return d, true
+	case int64, *Term, bool:
+		return &JDoc{Kind: "scalar", Elems: []Value{x}}, true
+	case string:
+		return &JDoc{Kind: "scalar", Elems: []Value{x}, Str: true}, true
+	case *StructV:
+		if len(x.F) == 0 {
+			return &JDoc{Kind: "object"}, true
+		}
+	}
+	_ = st
+	unsupported("json.Marshal of %T", v)
+	return nil, false
+}
+
+// parseRope turns a rope into one abstract document, or nil if it is not a single valid JSON value.
+func (e *Engine) parseRope(r *Rope) *JDoc {
+	type tok struct {
+		c   byte
+		doc *JDoc
+	}
+	var toks []tok
+	for _, p := range r.P {
+		if p.Opq {
+			if p.What != "json" || p.Doc == nil {
+				unsupported("parsing a rope with a non-JSON opaque piece")
+			}
+			toks = append(toks, tok{doc: p.Doc})
+			continue
+		}
+		for i := 0; i < len(p.S); i++ {
+			c := p.S[i]
+			switch c {
+			case ' ', '\n', '\t', '\r':
+			case '{', '}', '[', ']', ',', ':':
+				toks = append(toks, tok{c: c})
+			default:
+				if strings.HasPrefix(p.S[i:], "null") {
+					toks = append(toks, tok{doc: &JDoc{Kind: "null"}})
+					i += 3
+					continue
+				}
+				unsupported("JSON rope with literal text %q", p.S)
+			}
+		}
+	}
+	pos := 0
+	var value func() *JDoc
+	value = func() *JDoc {
+		if pos >= len(toks) {
+			return nil
+		}
+		t := toks[pos]
+		if t.doc != nil {
+			pos++
+			if t.doc.Kind == "invalid" {
+				return nil
+			}
+			return t.doc
+		}
+		switch t.c {
+		case '[':
+			pos++
+			d := &JDoc{Kind: "array"}
+			if pos < len(toks) && toks[pos].c == ']' {
+				pos++
+				return d
+			}
+			for {
+				el := value()
+				if el == nil {
+					return nil
+				}
+				d.Elems = append(d.Elems, docValue(el))
+				if pos >= len(toks) {
+					return nil
+				}
+				if toks[pos].c == ',' {
+					pos++
+					continue
+				}
+				if toks[pos].c == ']' {
+					pos++
+					return d
+				}
+				return nil
+			}
+		case '{':
+			pos++
+			d := &JDoc{Kind: "object"}
+			if pos < len(toks) && toks[pos].c == '}' {
+				pos++
+				return d
+			}
+			for {
+				k := value()
+				// object keys must be JSON strings
+				if k == nil || k.Kind != "scalar" || !k.Str {
+					return nil
+				}
+				if pos >= len(toks) || toks[pos].c != ':' {
+					return nil
+				}
+				pos++
+				el := value()
+				if el == nil {
+					return nil
+				}
+				d.Keys = append(d.Keys, k.Elems[0])
+				d.Elems = append(d.Elems, docValue(el))
+				if pos >= len(toks) {
+					return nil
+				}
+				if toks[pos].c == ',' {
+					pos++
+					continue
+				}
+				if toks[pos].c == '}' {
+					pos++
+					return d
+				}
+				return nil
+			}
+		}
+		return nil
+	}
+	d := value()
+	if d == nil || pos != len(toks) {
+		return nil
+	}
+	return d
+}
+
+// docValue: nested documents stay documents, scalars become their value.
+func docValue(d *JDoc) Value {
+	if d.Kind == "scalar" && !d.Str {
+		return d.Elems[0]
+	}
+	return d
+}
+
+// jsonDocIntrinsic builds the input documents of the FromJSON harnesses (class per Appendix B).
+func (e *Engine) jsonDocIntrinsic(a []Value) Value {
+	class := a[0].(int64)
+	keys, vals := sliceVals(a[1]), sliceVals(a[2])
+	bad := a[3].(int64)
+	switch class {
+	case jcSyntax, jcEmpty:
+		return docRope(&JDoc{Kind: "invalid"})
+	case jcNull:
+		return docRope(&JDoc{Kind: "null"})
+	case jcScalar:
+		return docRope(&JDoc{Kind: "scalar", Elems: []Value{int64(7)}})
+	case jcArray:
+		d := &JDoc{Kind: "array"}
+		for i, x := range vals {
+			if int64(i) == bad {
+				d.Elems = append(d.Elems, &JDoc{Kind: "scalar", Elems: []Value{"x"}, Str: true})
+			} else {
+				d.Elems = append(d.Elems, x)
+			}
+		}
+		return docRope(d)
+	case jcObject:
+		d := &JDoc{Kind: "object", StrKeys: true}
+		for i, x := range vals {
+			d.Keys = append(d.Keys, keys[i])
+			if int64(i) == bad {
+				d.Elems = append(d.Elems, &JDoc{Kind: "scalar", Elems: []Value{"x"}, Str: true})
+			} else {
+				d.Elems = append(d.Elems, x)
+			}
+		}
+		return docRope(d)
+	}
+	unsupported("JSONDoc class %d", class)
 	return nil
 }
+
+func (e *Engine) jsonKind(data Value) Value {
+	d := e.parseRope(ropeOf(data))
+	if d == nil {
+		return int64(jcSyntax)
+	}
+	switch d.Kind {
+	case "null":
+		return int64(jcNull)
+	case "scalar":
+		return int64(jcScalar)
+	case "array":
+		return int64(jcArray)
+	case "object":
+		return int64(jcObject)
+	}
+	return int64(jcSyntax)
+}
+
+func isNumber(v Value) bool {
+	switch v.(type) {
+	case int64, *Term:
+		return true
+	}
+	return false
+}
+
+// jsonUnmarshal implements the documented contract of json.Unmarshal for *[]int and *map[int]int targets.
 func (e *Engine) jsonUnmarshal(data, target Value) Value {
-	unsupported("json.Unmarshal stub not built yet")
+	tp, ok := e.fv(target).(*Ptr)
+	if !ok {
+		if i, isI := target.(*Iface); isI {
+			tp, ok = e.fv(i.V).(*Ptr)
+		}
+	}
+	if !ok {
+		unsupported("json.Unmarshal into %T", target)
+	}
+	var tt types.Type
+	if i, isI := target.(*Iface); isI {
+		tt = i.T.Underlying().(*types.Pointer).Elem()
+	}
+	if tt == nil {
+		unsupported("json.Unmarshal: unknown target type")
+	}
+	d := e.parseRope(ropeOf(data))
+	if d == nil {
+		return jsonErr("syntax error")
+	}
+	switch t := tt.Underlying().(type) {
+	case *types.Slice:
+		switch d.Kind {
+		case "null":
+			e.store(tp, Nil{})
+			return Nil{}
+		case "array":
+		default:
+			return jsonErr("cannot unmarshal " + d.Kind + " into slice")
+		}
+		old := e.load(tp)
+		n := int64(len(d.Elems))
+		var arr *Object
+		var off, ocap int64
+		if s, isS := old.(*SliceV); isS {
+			arr, off, ocap = s.Arr, s.Off, s.Cap
+		}
+		var cells []Value
+		if arr != nil && n <= ocap {
+			if n > 0 {
+				e.checkWrite(arr)
+			}
+			cells = arr.Val.(*StructV).F[off : off+ocap]
+		} else {
+			// growth: elements decoded so far are carried over (reflect.Append semantics); new cells are zero
+			spare := e.spec.Cfg["appendspare"]
+			nc := make([]Value, n+spare)
+			for i := range nc {
+				nc[i] = zero(t.Elem())
+			}
+			if arr != nil {
+				copy(nc, arr.Val.(*StructV).F[off:off+ocap])
+			}
+			arr, off, ocap = e.newObj(&StructV{F: nc}), 0, n+spare
+			cells = nc
+		}
+		var err Value = Nil{}
+		for i, el := range d.Elems {
+			if isNumber(el) {
+				cells[i] = el
+			} else if _, isNil := err.(Nil); isNil {
+				err = jsonErr("cannot unmarshal string into element of type int") // the cell keeps what it held
+			}
+		}
+		if arr == nil {
+			arr = e.newObj(&StructV{F: nil})
+		}
+		e.store(tp, &SliceV{Arr: arr, Off: off, Len: n, Cap: ocap})
+		return err
+	case *types.Map:
+		switch d.Kind {
+		case "null":
+			e.store(tp, Nil{})
+			return Nil{}
+		case "object":
+		default:
+			return jsonErr("cannot unmarshal " + d.Kind + " into map")
+		}
+		old := e.load(tp)
+		mv, isM := old.(*MapV)
+		if !isM {
+			e.nobj++
+			mv = &MapV{&MapObj{ID: e.nobj, Lazy: e.forcing > 0}}
+			e.store(tp, mv)
+		}
+		var err Value = Nil{}
+		for i, k := range d.Keys {
+			el := d.Elems[i]
+			if !isNumber(k) {
+				unsupported("json object key that is not an integer atom")
+			}
+			_, wantStruct := t.Elem().Underlying().(*types.Struct)
+			if !isNumber(el) && !wantStruct {
+				if _, isNil := err.(Nil); isNil {
+					err = jsonErr("cannot unmarshal string into map value of type int")
+				}
+				continue
+			}
+			e.checkWriteMap(mv.M)
+			if j := e.mapSlot(mv.M, k); j >= 0 {
+				mv.M.Vals[j] = el
+			} else {
+				mv.M.Keys = append(mv.M.Keys, k)
+				mv.M.Vals = append(mv.M.Vals, el)
+			}
+		}
+		return err
+	}
+	unsupported("json.Unmarshal into %v", tt)
 	return nil
 }
+
+// bytesIndex models bytes.Index(data, needle) for LinkedHashMap.FromJSON: the needle is the marshalled key, data the
+// document. Exact under the harness's assumption that every key and value of the document is a single-digit
+// non-negative integer: then the document's digit characters are exactly its key and value tokens in order, and
+// the first occurrence of the key's digit is the first token equal to it (a VALUE equal to a later key wins).
 func (e *Engine) bytesIndex(data, sep Value) Value {
-	unsupported("bytes.Index stub not built yet")
-	return nil
+	d := e.parseRope(ropeOf(data))
+	n := e.parseRope(ropeOf(sep))
+	if d == nil || n == nil || d.Kind != "object" || n.Kind != "scalar" {
+		unsupported("bytes.Index outside the modelled use (document object, scalar needle)")
+	}
+	x := n.Elems[0]
+	var toks []Value
+	for i := range d.Keys {
+		toks = append(toks, d.Keys[i], d.Elems[i])
+	}
+	for _, t := range append(append([]Value{}, toks...), x) {
+		if !isNumber(t) {
+			unsupported("bytes.Index over a document with non-numeric tokens")
+		}
+		in := e.boolAnd(e.binop(tokGEQ, t, int64(0), nil), e.binop(tokLEQ, t, int64(9), nil))
+		if c, ok := in.(bool); ok && c {
+			continue
+		}
+		if c, ok := in.(bool); (ok && !c) || e.solver.check("(not "+lit(in)+")") {
+			unsupported("bytes.Index: tokens outside the single-digit domain the stub models exactly (the harness must assume 0..9)")
+		}
+	}
+	var res Value = int64(-1)
+	for j := len(toks) - 1; j >= 0; j-- {
+		res = e.ite(e.eqVals(toks[j], x), int64(2*j+1), res)
+	}
+	return res
 }
